@@ -1,11 +1,14 @@
 // ledgerdrv: drives the REAL staking application (go/consensus/cometbft/apps/staking: InitChain,
-// AuthenticateTx, ExecuteTx, BeginBlock, EndBlock through their exported entry points; the exported
+// AuthenticateTx, ExecuteTx (all seven methods incl. AmendCommissionSchedule), ExecuteMessage (staking
+// runtime messages with a runtime account as caller), BeginBlock, EndBlock through their exported entry points; the exported
 // state mutators SlashEscrow, TransferFromCommon, AddRewards, governance deposit moves) on the mock
 // application state the repository's own tests use, with generated operation histories, dumps the
 // full real ledger after every operation and lets the Lean ledger model (`om_ledger`)
 //
 //	(i)  compare it account by account with the model's ledger, and
-//	(ii) evaluate the conservation invariant and the supply rule on the dumped real state,
+//	(ii) evaluate the conservation invariant and the supply rule on the dumped real state, and after
+//	     every epoch transition the `debond_exactly_once` clause of C15 (each completed debonding
+//	     delegation credited exactly once, at the debonding pool's price, the others untouched),
 //
 // properties C05 (and the handler part of C15: reclaim, debonding completion, slashing).
 package main
@@ -25,6 +28,7 @@ import (
 	"github.com/cometbft/cometbft/abci/types"
 
 	beacon "github.com/oasisprotocol/oasis-core/go/beacon/api"
+	"github.com/oasisprotocol/oasis-core/go/common"
 	"github.com/oasisprotocol/oasis-core/go/common/cbor"
 	"github.com/oasisprotocol/oasis-core/go/common/crypto/signature"
 	memorySigner "github.com/oasisprotocol/oasis-core/go/common/crypto/signature/signers/memory"
@@ -34,12 +38,15 @@ import (
 	"github.com/oasisprotocol/oasis-core/go/consensus/api/transaction"
 	abciAPI "github.com/oasisprotocol/oasis-core/go/consensus/cometbft/api"
 	registryState "github.com/oasisprotocol/oasis-core/go/consensus/cometbft/apps/registry/state"
+	roothashApi "github.com/oasisprotocol/oasis-core/go/consensus/cometbft/apps/roothash/api"
 	stakingApp "github.com/oasisprotocol/oasis-core/go/consensus/cometbft/apps/staking"
 	stakingState "github.com/oasisprotocol/oasis-core/go/consensus/cometbft/apps/staking/state"
 	tmcrypto "github.com/oasisprotocol/oasis-core/go/consensus/cometbft/crypto"
 	consensusGenesis "github.com/oasisprotocol/oasis-core/go/consensus/genesis"
 	genesis "github.com/oasisprotocol/oasis-core/go/genesis/api"
 	registry "github.com/oasisprotocol/oasis-core/go/registry/api"
+	roothash "github.com/oasisprotocol/oasis-core/go/roothash/api"
+	"github.com/oasisprotocol/oasis-core/go/roothash/api/message"
 	staking "github.com/oasisprotocol/oasis-core/go/staking/api"
 
 	"verifharness/hlib"
@@ -47,6 +54,7 @@ import (
 
 const (
 	nEntities   = 6
+	nRuntimes   = 2 // runtime accounts (staking.NewRuntimeAddress): callers of runtime messages
 	nValidators = 5 // validator j belongs to entity valEntity[j]
 )
 
@@ -57,6 +65,7 @@ type cast struct {
 	signers   []signature.Signer
 	index     map[staking.Address]int
 	entities  []int // entity e -> account number
+	runtimes  []int // runtime r -> account number
 	pkOrder   []int // account numbers of the entities in public-key order
 	burn      int
 	reserved  []int
@@ -66,26 +75,44 @@ type cast struct {
 	nodeSig   []signature.Signer
 }
 
-var theCast = func() *cast {
+// theCast is the cast in use: `fullCast` (entities, reserved addresses and runtime accounts; n = 10)
+// for generated histories, `legacyCast` (no runtime accounts; n = 8) for corpus files recorded before
+// runtime messages were driven (selected by the `n=` of the genesis line).
+var (
+	fullCast   = makeCast(nRuntimes)
+	legacyCast = makeCast(0)
+	theCast    = fullCast
+)
+
+func makeCast(runtimes int) *cast {
 	c := &cast{index: map[staking.Address]int{}}
 	type ent struct {
 		addr staking.Address
 		s    signature.Signer
+		rt   bool
 	}
 	var all []ent
 	for i := 0; i < nEntities; i++ {
 		s := memorySigner.NewTestSigner(fmt.Sprintf("verif ledgerdrv entity %d", i))
-		all = append(all, ent{staking.NewAddress(s.Public()), s})
+		all = append(all, ent{staking.NewAddress(s.Public()), s, false})
 	}
-	all = append(all, ent{staking.CommonPoolAddress, nil}, ent{staking.BurnAddress, nil})
+	all = append(all, ent{staking.CommonPoolAddress, nil, false}, ent{staking.BurnAddress, nil, false})
+	for i := 0; i < runtimes; i++ {
+		var ns common.Namespace
+		copy(ns[:], fmt.Sprintf("verif ledgerdrv runtime %d", i))
+		all = append(all, ent{staking.NewRuntimeAddress(ns), nil, true})
+	}
 	sort.Slice(all, func(i, j int) bool { return bytes.Compare(all[i].addr[:], all[j].addr[:]) < 0 })
 	for i, e := range all {
 		c.addrs = append(c.addrs, e.addr)
 		c.signers = append(c.signers, e.s)
 		c.index[e.addr] = i
-		if e.s == nil {
+		switch {
+		case e.rt:
+			c.runtimes = append(c.runtimes, i)
+		case e.s == nil:
 			c.reserved = append(c.reserved, i)
-		} else {
+		default:
 			c.entities = append(c.entities, i)
 		}
 		if e.addr.Equal(staking.BurnAddress) {
@@ -108,7 +135,7 @@ var theCast = func() *cast {
 		c.nodeSig = append(c.nodeSig, memorySigner.NewTestSigner(fmt.Sprintf("verif ledgerdrv node %d", j)))
 	}
 	return c
-}()
+}
 
 // ---------------------------------------------------------------- world: the real application on the mock state
 
@@ -184,8 +211,60 @@ func kv(ws []string) map[string]string {
 	return m
 }
 
+// parseSchedule reads `-` or `<rates>/<bounds>` (rates: -|start:rate,...; bounds: -|start:min:max,...).
+func parseSchedule(s string) staking.CommissionSchedule {
+	var cs staking.CommissionSchedule
+	if s == "-" {
+		return cs
+	}
+	rb := strings.Split(s, "/")
+	if len(rb) != 2 {
+		panic("bad schedule " + s)
+	}
+	if rb[0] != "-" {
+		for _, st := range strings.Split(rb[0], ",") {
+			ab := strings.Split(st, ":")
+			cs.Rates = append(cs.Rates, staking.CommissionRateStep{Start: beacon.EpochTime(atoi(ab[0])), Rate: qq(ab[1])})
+		}
+	}
+	if rb[1] != "-" {
+		for _, st := range strings.Split(rb[1], ",") {
+			ab := strings.Split(st, ":")
+			cs.Bounds = append(cs.Bounds, staking.CommissionRateBoundStep{Start: beacon.EpochTime(atoi(ab[0])), RateMin: qq(ab[1]), RateMax: qq(ab[2])})
+		}
+	}
+	return cs
+}
+
+func showSchedule(cs *staking.CommissionSchedule) string {
+	if len(cs.Rates) == 0 && len(cs.Bounds) == 0 {
+		return "-"
+	}
+	r, b := "-", "-"
+	var ps []string
+	for i := range cs.Rates {
+		ps = append(ps, fmt.Sprintf("%d:%s", cs.Rates[i].Start, &cs.Rates[i].Rate))
+	}
+	if len(ps) > 0 {
+		r = strings.Join(ps, ",")
+	}
+	ps = nil
+	for i := range cs.Bounds {
+		ps = append(ps, fmt.Sprintf("%d:%s:%s", cs.Bounds[i].Start, &cs.Bounds[i].RateMin, &cs.Bounds[i].RateMax))
+	}
+	if len(ps) > 0 {
+		b = strings.Join(ps, ",")
+	}
+	return r + "/" + b
+}
+
 func (w *world) genesisLine(ws []string) {
 	m := kv(ws)
+	if m["n"] == "8" {
+		theCast = legacyCast
+	} else {
+		theCast = fullCast
+	}
 	get := func(k string) string {
 		if v, ok := m[k]; ok {
 			return v
@@ -212,21 +291,40 @@ func (w *world) genesisLine(ws []string) {
 	p.SigningRewardThresholdNumerator = uint64(atoi(get("thrN")))
 	p.SigningRewardThresholdDenominator = uint64(atoi(get("thrD")))
 	p.CommissionScheduleRules.MinCommissionRate = qq(get("mincom"))
-	p.CommissionScheduleRules.RateChangeInterval = 1
-	p.CommissionScheduleRules.RateBoundLead = 1
-	p.CommissionScheduleRules.MaxRateSteps = 4
-	p.CommissionScheduleRules.MaxBoundSteps = 4
+	geti := func(k string, d int) int {
+		if v, ok := m[k]; ok {
+			return atoi(v)
+		}
+		return d
+	}
+	p.CommissionScheduleRules.RateChangeInterval = beacon.EpochTime(geti("rci", 1))
+	p.CommissionScheduleRules.RateBoundLead = beacon.EpochTime(geti("rbl", 1))
+	p.CommissionScheduleRules.MaxRateSteps = uint16(geti("mrs", 4))
+	p.CommissionScheduleRules.MaxBoundSteps = uint16(geti("mbs", 4))
+	// AmendCommissionSchedule requires Thresholds[entity] + Thresholds[node-validator] of active escrow
+	if thr := geti("comthr", 0); thr > 0 {
+		p.Thresholds[staking.KindEntity] = qq(strconv.Itoa(thr / 2))
+		p.Thresholds[staking.KindNodeValidator] = qq(strconv.Itoa(thr - thr/2))
+	}
+	p.AllowEscrowMessages = get("escmsg") == "1"
 	if s := get("sched"); s != "0" && s != "-" {
 		for _, st := range strings.Split(s, ",") {
 			ab := strings.Split(st, ":")
 			p.RewardSchedule = append(p.RewardSchedule, staking.RewardStep{Until: beacon.EpochTime(atoi(ab[0])), Scale: qq(ab[1])})
 		}
 	}
-	if g := atoi(get("gascost")); g > 0 {
+	gasOps := []transaction.Op{staking.GasOpTransfer, staking.GasOpBurn, staking.GasOpAddEscrow,
+		staking.GasOpReclaimEscrow, staking.GasOpAmendCommissionSchedule, staking.GasOpAllow, staking.GasOpWithdraw}
+	if g := atoi(get("gascost")); g > 0 { // legacy: one cost for every operation
 		p.GasCosts = transaction.Costs{}
-		for _, op := range []transaction.Op{staking.GasOpTransfer, staking.GasOpBurn, staking.GasOpAddEscrow,
-			staking.GasOpReclaimEscrow, staking.GasOpAmendCommissionSchedule, staking.GasOpAllow, staking.GasOpWithdraw} {
+		for _, op := range gasOps {
 			p.GasCosts[op] = transaction.Gas(g)
+		}
+	}
+	if gc, ok := m["gascosts"]; ok { // per operation: transfer,burn,addescrow,reclaimescrow,amend,allow,withdraw
+		p.GasCosts = transaction.Costs{}
+		for i, c := range ints(gc) {
+			p.GasCosts[gasOps[i]] = transaction.Gas(c)
 		}
 	}
 	if g := atoi(get("gasbyte")); g > 0 {
@@ -248,12 +346,7 @@ func (w *world) acctLine(f []string) {
 	a.General.Nonce = uint64(atoi(f[3]))
 	a.Escrow.Active = staking.SharePool{Balance: qq(f[4]), TotalShares: qq(f[5])}
 	a.Escrow.Debonding = staking.SharePool{Balance: qq(f[6]), TotalShares: qq(f[7])}
-	if f[8] != "-" {
-		a.Escrow.CommissionSchedule = staking.CommissionSchedule{
-			Rates:  []staking.CommissionRateStep{{Start: 0, Rate: qq(f[8])}},
-			Bounds: []staking.CommissionRateBoundStep{{Start: 0, RateMin: *w.gen.Parameters.CommissionScheduleRules.MinCommissionRate.Clone(), RateMax: *staking.CommissionRateDenominator.Clone()}},
-		}
-	}
+	a.Escrow.CommissionSchedule = parseSchedule(normSchedule(f[8], &w.gen.Parameters.CommissionScheduleRules.MinCommissionRate))
 	if f[9] != "-" {
 		a.General.Allowances = map[staking.Address]quantity.Quantity{}
 		for _, p := range strings.Split(f[9], ",") {
@@ -262,6 +355,15 @@ func (w *world) acctLine(f []string) {
 		}
 	}
 	w.gen.Ledger[theCast.addrs[atoi(f[1])]] = a
+}
+
+// normSchedule turns the legacy form of the commission field (a bare rate: one rate step at epoch 0
+// bounded by [MinCommissionRate, 100%]) into a schedule string.
+func normSchedule(s string, minRate *quantity.Quantity) string {
+	if s == "-" || strings.Contains(s, "/") {
+		return s
+	}
+	return fmt.Sprintf("0:%s/0:%s:%s", s, minRate, staking.CommissionRateDenominator)
 }
 
 // setupRegistry registers the validators' entities and nodes so that BeginBlock can resolve
@@ -354,6 +456,11 @@ func errKind(err error) string {
 		return "err:bad-account"
 	case errors.Is(err, abciAPI.ErrOutOfGas):
 		return "err:out-of-gas"
+	case errors.Is(err, staking.ErrInsufficientStake):
+		return "err:insufficient-stake"
+	case strings.HasPrefix(err.Error(), "amendment: "), strings.HasPrefix(err.Error(), "after pruning and amending: "):
+		// AmendAndPruneAndValidate refused the amendment (unregistered error values)
+		return "err:bad-schedule"
 	}
 	return "err:other:" + strings.ReplaceAll(err.Error(), " ", "_")
 }
@@ -371,13 +478,10 @@ func fatalOr(err error) string {
 // lastGas / lastSize: gas limit and encoded size of the last transaction (for the model's line).
 var lastGas, lastSize int
 
-func (w *world) tx(f []string) string {
-	signer := atoi(f[1])
-	s := theCast.signers[signer]
-	if s == nil {
-		panic("transaction signed by a reserved address")
-	}
-	tx := &transaction.Transaction{Nonce: uint64(atoi(f[2])), Fee: &transaction.Fee{Amount: qq(f[3]), Gas: 1000000}}
+// buildTx builds the transaction of a `tx signer nonce fee <body> [gas=N]` op; rawLen is the size the
+// mux charges per byte for (encoded transaction + signed envelope).
+func buildTx(f []string) (tx *transaction.Transaction, rawLen int) {
+	tx = &transaction.Transaction{Nonce: uint64(atoi(f[2])), Fee: &transaction.Fee{Amount: qq(f[3]), Gas: 1000000}}
 	switch f[4] {
 	case "transfer":
 		tx.Method, tx.Body = staking.MethodTransfer, cbor.Marshal(&staking.Transfer{To: theCast.addrs[atoi(f[5])], Amount: qq(f[6])})
@@ -391,6 +495,8 @@ func (w *world) tx(f []string) string {
 		tx.Method, tx.Body = staking.MethodAllow, cbor.Marshal(&staking.Allow{Beneficiary: theCast.addrs[atoi(f[5])], Negative: f[6] == "1", AmountChange: qq(f[7])})
 	case "withdraw":
 		tx.Method, tx.Body = staking.MethodWithdraw, cbor.Marshal(&staking.Withdraw{From: theCast.addrs[atoi(f[5])], Amount: qq(f[6])})
+	case "amend":
+		tx.Method, tx.Body = staking.MethodAmendCommissionSchedule, cbor.Marshal(&staking.AmendCommissionSchedule{Amendment: parseSchedule(f[5])})
 	default:
 		panic("unknown tx body " + f[4])
 	}
@@ -399,7 +505,16 @@ func (w *world) tx(f []string) string {
 			tx.Fee.Gas = transaction.Gas(atoi(t[4:]))
 		}
 	}
-	rawLen := len(cbor.Marshal(tx)) + 100 // signed envelope
+	return tx, len(cbor.Marshal(tx)) + 100 // signed envelope
+}
+
+func (w *world) tx(f []string) string {
+	signer := atoi(f[1])
+	s := theCast.signers[signer]
+	if s == nil {
+		panic("transaction signed by a reserved address")
+	}
+	tx, rawLen := buildTx(f)
 	lastGas, lastSize = int(tx.Fee.Gas), rawLen
 	// what the mux does in DeliverTx (abci/transaction.go processTx): authenticate + pay fee,
 	// charge gas per transaction byte, execute
@@ -427,6 +542,33 @@ func (w *world) tx(f []string) string {
 	if authErr != nil {
 		return errKind(authErr)
 	}
+	return errKind(err)
+}
+
+// msg delivers a staking runtime message the way roothash.processRuntimeMessages does: the runtime's
+// account as caller, a no-op gas accountant (gas was accounted for at submission), published by the
+// roothash module to the staking application's ExecuteMessage.
+func (w *world) msg(f []string) string {
+	rt := theCast.addrs[atoi(f[1])]
+	var m message.StakingMessage
+	switch f[2] {
+	case "transfer":
+		m.Transfer = &staking.Transfer{To: theCast.addrs[atoi(f[3])], Amount: qq(f[4])}
+	case "withdraw":
+		m.Withdraw = &staking.Withdraw{From: theCast.addrs[atoi(f[3])], Amount: qq(f[4])}
+	case "escrow":
+		m.AddEscrow = &staking.Escrow{Account: theCast.addrs[atoi(f[3])], Amount: qq(f[4])}
+	case "reclaim":
+		m.ReclaimEscrow = &staking.ReclaimEscrow{Account: theCast.addrs[atoi(f[3])], Shares: qq(f[4])}
+	default:
+		panic("unknown message body " + f[2])
+	}
+	ctx := w.appState.NewContext(abciAPI.ContextDeliverTx)
+	defer ctx.Close()
+	mctx := ctx.WithCallerAddress(rt)
+	defer mctx.Close()
+	mctx.SetGasAccountant(abciAPI.NewNopGasAccountant())
+	_, err := w.app.ExecuteMessage(mctx, abciAPI.Message{Sender: roothash.ModuleName, Kind: roothashApi.RuntimeMessageStaking, Data: &m})
 	return errKind(err)
 }
 
@@ -709,6 +851,15 @@ func (w *world) dump() string {
 	}
 	sort.Strings(recs)
 	b.WriteString(strings.Join(recs, ""))
+	for _, a := range addrs {
+		acct, err := st.Account(ctx, a)
+		if err != nil {
+			panic(err)
+		}
+		if !acct.Escrow.CommissionSchedule.IsEmpty() {
+			fmt.Fprintf(&b, " C %d %s", idx(a), showSchedule(&acct.Escrow.CommissionSchedule))
+		}
+	}
 	return b.String()
 }
 
@@ -764,6 +915,7 @@ func (w *world) exec(op string) (line string, dump bool, stop bool) {
 		return op, false, false
 	case "acct":
 		w.acctLine(f)
+		f[8] = normSchedule(f[8], &w.gen.Parameters.CommissionScheduleRules.MinCommissionRate)
 		return strings.Join(f[:10], " "), false, false
 	case "del":
 		e, d := theCast.addrs[atoi(f[1])], theCast.addrs[atoi(f[2])]
@@ -784,9 +936,12 @@ func (w *world) exec(op string) (line string, dump bool, stop bool) {
 		r := w.init()
 		return "init " + r, r == "ok", r != "ok"
 	case "tx":
-		n := map[string]int{"transfer": 7, "burn": 6, "escrow": 7, "reclaim": 7, "allow": 8, "withdraw": 7}[f[4]]
+		n := map[string]int{"transfer": 7, "burn": 6, "escrow": 7, "reclaim": 7, "allow": 8, "withdraw": 7, "amend": 6}[f[4]]
 		r := w.tx(f)
 		return fmt.Sprintf("%s %d %d %s %s", strings.Join(f[:4], " "), lastGas, lastSize, strings.Join(f[4:n], " "), r), true, false
+	case "msg":
+		r := w.msg(f)
+		return strings.Join(f[:5], " ") + " " + r, true, false
 	case "epoch":
 		w.cfg.CurrentEpoch = beacon.EpochTime(atoi(f[1]))
 		w.cfg.EpochChanged = true
@@ -945,6 +1100,8 @@ func signature2(d string) string {
 		return "model-error"
 	case strings.HasPrefix(d, "INTREE"):
 		return "intree-check"
+	case strings.HasPrefix(d, "SPEC debond"):
+		return "spec-debond-exactly-once"
 	case strings.HasPrefix(d, "SPEC supply"):
 		return "spec-supply-equation"
 	case strings.HasPrefix(d, "SPEC share"):
@@ -962,14 +1119,23 @@ func signature2(d string) string {
 // ---------------------------------------------------------------- generator (live: it looks at the real state)
 
 type gen struct {
-	fullCom []int // entities whose commission rate is 100%
-	gasTok  string
-	gascost int
-	r       *hlib.Rng
-	w       *world
-	ops     []string
-	res     *hlib.Result
-	mtb     int64
+	fullCom                    []int // entities whose commission rate is 100%
+	gasTok                     string
+	rci, rbl, mrs, mbs, mincom int  // commission schedule rules of the history
+	msgHeavy                   bool // runtime-message-heavy history
+	comHeavy                   bool // commission-schedule-heavy history
+	gasOn                      bool
+	gasPick                    int            // -1: default limit; else which boundary (see gasLimit)
+	gasCost                    map[string]int // body kind -> operation cost
+	r                          *hlib.Rng
+	w                          *world
+	ops                        []string
+	res                        *hlib.Result
+	mtb                        int64
+	// debonding-completion bookkeeping (see classifyBatch)
+	curEpoch     int
+	epochPending bool            // an `epoch` op was emitted for the running block
+	patterns     map[string]bool // ordering patterns of expired-queue batches hit by this history
 }
 
 // observe counts what happened across a block-level op from the dumps before and after it.
@@ -1009,9 +1175,213 @@ func (g *gen) observe(op, before, after string) {
 	}
 }
 
+// ---- ordering patterns of the expired-debonding-queue batch an epoch transition completes
+
+type qent struct{ ep, d, e int }
+
+// parseDump returns the debonding queue (in queue order: end epoch, delegator, escrow) and the
+// debonding pools (balance, total shares) per account of a dump line.
+func parseDump(dump string) (q []qent, dB, dTS map[int]*big.Int) {
+	dB, dTS = map[int]*big.Int{}, map[int]*big.Int{}
+	f := strings.Fields(dump)
+	for i := 7; i < len(f); {
+		switch f[i] {
+		case "A":
+			a := atoi(f[i+1])
+			dB[a], _ = new(big.Int).SetString(f[i+6], 10)
+			dTS[a], _ = new(big.Int).SetString(f[i+7], 10)
+			i += 9
+		case "D":
+			i += 4
+		case "Q":
+			q = append(q, qent{atoi(f[i+1]), atoi(f[i+2]), atoi(f[i+3])})
+			i += 5
+		case "S", "C":
+			i += 3
+		default:
+			panic("bad dump record " + f[i])
+		}
+	}
+	return
+}
+
+// classifyBatch records which ordering patterns the batch of debonding delegations completed by the
+// epoch transition of the block just ended exhibits (`before`: dump before EndBlock).  The queue is
+// walked in key order (end epoch, delegator address, escrow address); account numbers are address order.
+func (g *gen) classifyBatch(before, after string) {
+	q, dB, dTS := parseDump(before)
+	var batch []qent
+	pairCount := map[[2]int]int{}
+	for _, x := range q {
+		pairCount[[2]int{x.d, x.e}]++
+		if x.ep <= g.curEpoch {
+			batch = append(batch, x)
+		}
+	}
+	for _, n := range pairCount {
+		if n > 1 {
+			g.patterns["queue:several-debonding-delegations-of-one-pair"] = true
+		}
+	}
+	if len(batch) == 0 {
+		return
+	}
+	hit := func(s string) { g.patterns["batch:"+s] = true }
+	hit("any")
+	if len(batch) >= 3 {
+		hit("size>=3")
+	}
+	if qa, _, _ := parseDump(after); len(qa) != len(q)-len(batch) {
+		hit("UNEXPECTED-queue-length-after")
+	}
+	eps, escrows, batchPair := map[int]bool{}, map[int]bool{}, map[[2]int]int{}
+	var runs []int
+	for i, x := range batch {
+		eps[x.ep] = true
+		escrows[x.e] = true
+		batchPair[[2]int{x.d, x.e}]++
+		if x.ep < g.curEpoch {
+			hit("completed-late")
+		}
+		if i == 0 || batch[i-1].e != x.e {
+			runs = append(runs, x.e)
+		}
+	}
+	if len(eps) > 1 {
+		hit("several-end-epochs")
+	}
+	if len(escrows) > 1 {
+		hit("several-escrow-accounts")
+	}
+	for _, n := range batchPair {
+		if n > 1 {
+			hit("several-debonding-delegations-of-one-pair")
+		}
+	}
+	seenRun := map[int]bool{}
+	for _, e := range runs {
+		if seenRun[e] {
+			hit("escrow-accounts-interleaved")
+		}
+		seenRun[e] = true
+	}
+	for e := range escrows {
+		var ds []int
+		self := false
+		for _, x := range batch {
+			if x.e != e {
+				continue
+			}
+			if x.d == e {
+				self = true
+			} else {
+				ds = append(ds, x.d)
+			}
+		}
+		sort.Ints(ds)
+		if self {
+			hit("self-delegation")
+		}
+		if self && len(ds) > 0 {
+			hit("self-delegation-and-delegators-of-same-escrow")
+		}
+		if len(ds) >= 2 && ds[0] != ds[len(ds)-1] {
+			switch {
+			case e < ds[0]:
+				hit("escrow-sorts-before-its-delegators")
+			case e > ds[len(ds)-1]:
+				hit("escrow-sorts-after-its-delegators")
+			default:
+				hit("escrow-sorts-between-its-delegators")
+			}
+			if self {
+				switch {
+				case e < ds[0]:
+					hit("self+escrow-sorts-before-its-delegators")
+				case e > ds[len(ds)-1]:
+					hit("self+escrow-sorts-after-its-delegators")
+				default:
+					hit("self+escrow-sorts-between-its-delegators")
+				}
+			}
+		}
+		if b, ts := dB[e], dTS[e]; b != nil && ts != nil {
+			switch {
+			case b.Sign() == 0 && ts.Sign() > 0:
+				hit("debonding-pool-slashed-to-zero")
+			case b.Cmp(ts) < 0:
+				hit("debonding-pool-price-below-one")
+			case b.Cmp(ts) > 0:
+				hit("debonding-pool-price-above-one")
+			}
+		}
+	}
+	// adjacency in queue order
+	for i := 0; i+1 < len(batch); i++ {
+		x, y := batch[i], batch[i+1]
+		if x.e != y.e {
+			continue
+		}
+		switch {
+		case x.d == x.e:
+			hit("adjacent:self,delegator")
+		case y.d == y.e:
+			hit("adjacent:delegator,self")
+		default:
+			hit("adjacent:delegator,delegator")
+		}
+		if i+2 < len(batch) {
+			z := batch[i+2]
+			if z.e == x.e && y.d == y.e && x.d != x.e && z.d != z.e {
+				hit("adjacent:delegator,self,delegator")
+			}
+			if z.e == x.e && x.d != x.e && y.d != y.e && z.d != z.e {
+				hit("adjacent:delegator,delegator,delegator")
+			}
+		}
+	}
+}
+
+// gasLimit: the gas limit for boundary `pick` of transaction op (per-byte cost 1): 0 · one below the
+// per-byte charge · exactly the per-byte charge · one below per-byte + operation · exactly enough · plenty.
+func (g *gen) gasLimit(op string, pick int) int {
+	f := strings.Fields(op)
+	cost := g.gasCost[f[4]]
+	limit := 0
+	for iter := 0; iter < 4; iter++ { // the size depends (by a byte or two) on the encoded limit
+		_, size := buildTx(append(append([]string{}, f...), fmt.Sprintf("gas=%d", limit)))
+		var want int
+		switch pick {
+		case 0:
+			want = 0
+		case 1:
+			want = size - 1
+		case 2:
+			want = size
+		case 3:
+			want = size + cost - 1
+		case 4:
+			want = size + cost
+		default:
+			want = 1000000
+		}
+		if want == limit {
+			break
+		}
+		limit = want
+	}
+	return limit
+}
+
 func (g *gen) emit(op string) bool {
 	if strings.HasPrefix(op, "tx ") {
+		if g.gasPick >= 0 {
+			g.res.Count("gas-limit:" + []string{"zero", "bytes-1", "bytes-exact", "bytes+op-1", "bytes+op-exact", "plenty", "plenty"}[g.gasPick])
+			g.gasTok = fmt.Sprintf(" gas=%d", g.gasLimit(op, g.gasPick))
+			g.gasPick = -1
+		}
 		op += g.gasTok
+		g.gasTok = ""
 	}
 	g.ops = append(g.ops, op)
 	name := strings.Fields(op)[0]
@@ -1019,9 +1389,19 @@ func (g *gen) emit(op string) bool {
 	if g.w.inited && (name == "end" || name == "begin" || name == "slash") {
 		before = g.w.dump()
 	}
+	if name == "epoch" {
+		g.curEpoch, g.epochPending = atoi(strings.Fields(op)[1]), true
+	}
 	line, _, stop := g.w.exec(op)
 	if before != "" && !stop {
-		g.observe(name, before, g.w.dump())
+		after := g.w.dump()
+		g.observe(name, before, after)
+		if name == "end" && g.epochPending {
+			g.classifyBatch(before, after)
+		}
+	}
+	if name == "end" {
+		g.epochPending = false
 	}
 	f := strings.Fields(line)
 	switch f[0] {
@@ -1029,6 +1409,8 @@ func (g *gen) emit(op string) bool {
 		g.res.Count("tx:" + f[6] + ":" + f[len(f)-1])
 	case "begin", "end", "init", "slash", "tfc", "addrewards", "govdep", "govref", "govdisc":
 		g.res.Count("op:" + f[0] + ":" + f[len(f)-1])
+	case "msg":
+		g.res.Count("msg:" + f[2] + ":" + f[len(f)-1])
 	}
 	return stop
 }
@@ -1114,15 +1496,25 @@ func (g *gen) tx() bool {
 	}
 	head := fmt.Sprintf("tx %d %d %s ", s, n, fee)
 	g.gasTok = ""
-	if g.gascost > 0 && (spec != "c05" || r.Chance(1, 4)) {
-		// gas limits that exhaust at the per-byte charge, at the operation's charge, or never
-		g.gasTok = fmt.Sprintf(" gas=%d", []int{0, 50, 150, 250, 305, 1000000, 1000000}[r.Intn(7)])
+	g.gasPick = -1
+	if g.gasOn && (spec != "c05" || r.Chance(1, 3)) {
+		// gas limits that exhaust at the per-byte charge, exactly at / one below the operation's
+		// charge, or never (resolved against the encoded size in emit)
+		g.gasPick = r.Intn(7)
 	}
 	avail := new(big.Int).Sub(general[s], fee)
 	if avail.Sign() < 0 {
 		avail.SetInt64(0)
 	}
-	switch k := r.Intn(100); {
+	if g.comHeavy && r.Chance(2, 5) {
+		if r.Chance(3, 4) {
+			g.gasPick = -1
+		}
+		return g.emit(fmt.Sprintf("tx %d %d %d amend %s", s, nonce[s], r.Intn(20), g.genAmendment(s, accts[s])))
+	}
+	switch k := r.Intn(108); {
+	case k >= 100:
+		return g.emit(head + "amend " + g.genAmendment(s, accts[s]))
 	case k < 25:
 		dst := g.anyAcct()
 		if r.Chance(1, 10) {
@@ -1156,6 +1548,9 @@ func (g *gen) tx() bool {
 		return g.emit(head + fmt.Sprintf("reclaim %d %s", e, shares))
 	case k < 90:
 		b := g.anyAcct()
+		if g.msgHeavy && r.Chance(1, 2) {
+			b = theCast.runtimes[r.Intn(len(theCast.runtimes))]
+		}
 		neg := 0
 		if r.Chance(1, 3) {
 			neg = 1
@@ -1174,6 +1569,311 @@ func (g *gen) tx() bool {
 	}
 }
 
+// rate picks a commission rate in [lo, hi] with a bias to the ends.
+func (g *gen) rate(lo, hi int) int {
+	switch g.r.Intn(4) {
+	case 0:
+		return lo
+	case 1:
+		return hi
+	}
+	return lo + g.r.Intn(hi-lo+1)
+}
+
+func (g *gen) align(x int) int { return ((x + g.rci - 1) / g.rci) * g.rci }
+
+// genSchedule: a commission schedule for genesis at `epoch`, valid by construction (rarely not): one
+// to three rate steps (some already started, so that pruning matters), one or two bound steps.
+// Returns the text and whether the rate in force is 100%.
+func (g *gen) genSchedule(epoch int) (string, bool) {
+	r := g.r
+	lo, hi := g.mincom, 100000
+	if r.Chance(1, 3) && g.mincom < 100000 {
+		lo = g.rate(g.mincom, 100000)
+		hi = g.rate(lo, 100000)
+	}
+	nr := 1 + r.Intn(3)
+	if nr > g.mrs {
+		nr = g.mrs
+	}
+	var rs []string
+	start, cur := 0, 0
+	for i := 0; i < nr; i++ {
+		rt := g.rate(lo, hi)
+		if r.Chance(1, 300) {
+			rt = hi + 1 // out of bounds: InitChain must refuse
+		}
+		rs = append(rs, fmt.Sprintf("%d:%d", start, rt))
+		if start <= epoch {
+			cur = rt
+		}
+		start = g.align(start + 1 + r.Intn(epoch+4))
+	}
+	bs := []string{fmt.Sprintf("0:%d:%d", lo, hi)}
+	if g.mbs >= 2 && r.Chance(1, 3) {
+		// a later, wider bound step
+		lo2, hi2 := g.rate(g.mincom, lo), g.rate(hi, 100000)
+		bs = append(bs, fmt.Sprintf("%d:%d:%d", g.align(1+r.Intn(epoch+6)), lo2, hi2))
+	}
+	return strings.Join(rs, ",") + "/" + strings.Join(bs, ","), cur == 100000
+}
+
+// genAmendment: an amendment of account s's schedule as it is in the real state — acceptable ones (a
+// rate change inside every bound in force from its start on, a bound change with the required lead
+// that contains every later rate, an initial schedule, both at once) and refused ones (start at or
+// before the current epoch, off the change interval, no lead, rate outside the bounds / above 100% /
+// below the minimum, max < min, unordered or too many steps, rates without bounds).
+func (g *gen) genAmendment(s int, acct *staking.Account) string {
+	r := g.r
+	now := g.curEpoch
+	cs := &acct.Escrow.CommissionSchedule
+	// the interval common to all bounds, and the span of all rates, of the current schedule
+	lo, hi := g.mincom, 100000
+	for i := range cs.Bounds {
+		if v := int(cs.Bounds[i].RateMin.ToBigInt().Int64()); v > lo {
+			lo = v
+		}
+		if v := int(cs.Bounds[i].RateMax.ToBigInt().Int64()); v < hi {
+			hi = v
+		}
+	}
+	rlo, rhi := 100000, g.mincom
+	for i := range cs.Rates {
+		v := int(cs.Rates[i].Rate.ToBigInt().Int64())
+		if v < rlo {
+			rlo = v
+		}
+		if v > rhi {
+			rhi = v
+		}
+	}
+	if lo > hi {
+		lo, hi = g.mincom, 100000
+	}
+	if rlo > rhi {
+		rlo, rhi = lo, hi
+	}
+	lead := g.rbl
+	if len(cs.Bounds) == 0 {
+		lead = 0 // initial schedule: no lead required
+	}
+	rateStart := g.align(now + 1 + r.Intn(3))
+	boundStart := g.align(now + 1 + lead + r.Intn(3))
+	if r.Chance(1, 3) {
+		rateStart, boundStart = g.align(now+1), g.align(now+1+lead) // the earliest acceptable
+	}
+	var rs [][2]int
+	var bs [][3]int
+	// 1. an acceptable amendment
+	switch k := r.Intn(17); {
+	case k >= 14 && !cs.IsEmpty():
+		// rate and bound switch at the same epoch; the new bound need not contain the old rates
+		// (every step from that epoch on is replaced)
+		nlo := g.rate(g.mincom, 100000)
+		nhi := g.rate(nlo, 100000)
+		rs = append(rs, [2]int{boundStart, g.rate(nlo, nhi)})
+		bs = append(bs, [3]int{boundStart, nlo, nhi})
+		if g.mrs >= 3 && g.mbs >= 3 && r.Chance(1, 3) {
+			s2 := g.align(boundStart + 1 + r.Intn(3))
+			nlo2 := g.rate(g.mincom, 100000)
+			nhi2 := g.rate(nlo2, 100000)
+			rs = append(rs, [2]int{s2, g.rate(nlo2, nhi2)})
+			bs = append(bs, [3]int{s2, nlo2, nhi2})
+		}
+	case cs.IsEmpty():
+		// initial schedule: rates and bounds start together in the future
+		b0 := g.rate(g.mincom, 100000)
+		b1 := g.rate(b0, 100000)
+		rs = append(rs, [2]int{rateStart, g.rate(b0, b1)})
+		if g.mrs >= 2 && r.Bool() {
+			rs = append(rs, [2]int{g.align(rateStart + 1 + r.Intn(4)), g.rate(b0, b1)})
+		}
+		bs = append(bs, [3]int{rateStart, b0, b1})
+	case k < 7:
+		rs = append(rs, [2]int{rateStart, g.rate(lo, hi)})
+		if g.mrs >= 3 && r.Chance(1, 3) {
+			rs = append(rs, [2]int{g.align(rateStart + 1 + r.Intn(4)), g.rate(lo, hi)})
+		}
+	case k < 11:
+		bs = append(bs, [3]int{boundStart, g.rate(g.mincom, rlo), g.rate(rhi, 100000)})
+	default:
+		// both: a new bound and a rate inside old and new bounds
+		nlo, nhi := g.rate(g.mincom, rlo), g.rate(rhi, 100000)
+		l2, h2 := lo, hi
+		if nlo > l2 {
+			l2 = nlo
+		}
+		if nhi < h2 {
+			h2 = nhi
+		}
+		if l2 > h2 {
+			l2, h2 = rlo, rhi
+		}
+		rs = append(rs, [2]int{rateStart, g.rate(l2, h2)})
+		bs = append(bs, [3]int{boundStart, nlo, nhi})
+	}
+	// 2. sometimes spoiled in exactly one respect (each is a separate check of the Go code)
+	if r.Chance(2, 5) {
+		// only kinds that apply to this amendment
+		var kinds []int
+		if len(rs) > 0 {
+			kinds = append(kinds, 0, 3, 4, 5, 8, 9)
+			if now > 0 {
+				kinds = append(kinds, 1)
+			}
+		}
+		if len(bs) > 0 {
+			kinds = append(kinds, 3, 6, 7, 8)
+			if !cs.IsEmpty() {
+				kinds = append(kinds, 2, 2)
+			}
+		}
+		if cs.IsEmpty() {
+			kinds = append(kinds, 10, 11)
+		}
+		kind := kinds[r.Intn(len(kinds))]
+		g.res.Count(fmt.Sprintf("amend-spoiled:%d", kind))
+		switch kind {
+		case 0: // rate change at the current epoch
+			if len(rs) > 0 {
+				rs[0][0] = now
+			}
+		case 1: // rate change in the past
+			if len(rs) > 0 && now > 0 {
+				rs[0][0] = g.align(r.Intn(now))
+			}
+		case 2: // bound change one epoch short of the lead
+			if len(bs) > 0 && bs[0][0] > 0 {
+				bs[0][0] = now + lead
+			}
+		case 3: // off the change interval
+			if len(rs) > 0 {
+				rs[0][0]++
+			} else {
+				bs[0][0]++
+			}
+		case 4: // rate just above the bounds in force / above 100%
+			if len(rs) > 0 {
+				rs[len(rs)-1][1] = []int{hi + 1, 100001}[r.Intn(2)]
+			}
+		case 5: // rate just below the bounds in force / below the minimum
+			if len(rs) > 0 {
+				v := []int{lo - 1, g.mincom - 1}[r.Intn(2)]
+				if v >= 0 {
+					rs[len(rs)-1][1] = v
+				}
+			}
+		case 6: // new bound excludes an existing rate
+			if len(bs) > 0 {
+				if r.Bool() {
+					bs[0][1] = rlo + 1
+				} else if rhi > 0 {
+					bs[0][2] = rhi - 1
+				}
+			}
+		case 7: // max < min, or bound above 100% / below the minimum
+			if len(bs) > 0 {
+				switch r.Intn(3) {
+				case 0:
+					bs[0][1], bs[0][2] = bs[0][2]+1, bs[0][1]
+				case 1:
+					bs[0][2] = 100001
+				default:
+					if g.mincom > 0 {
+						bs[0][1] = g.mincom - 1
+					}
+				}
+			}
+		case 8: // steps not in increasing order
+			if len(rs) > 0 {
+				rs = append(rs, rs[len(rs)-1])
+			} else {
+				bs = append(bs, bs[len(bs)-1])
+			}
+		case 9: // too many steps (together with the steps that are kept)
+			for len(rs) <= g.mrs && len(rs) > 0 {
+				last := rs[len(rs)-1]
+				rs = append(rs, [2]int{g.align(last[0] + 1), last[1]})
+			}
+		case 10: // rates without bounds / bounds without rates on an empty schedule
+			if cs.IsEmpty() {
+				if r.Bool() {
+					rs = nil
+				} else {
+					bs = nil
+				}
+			}
+		default: // rate and bound schedules of an initial schedule start at different epochs
+			if cs.IsEmpty() && len(bs) > 0 {
+				bs[0][0] = g.align(bs[0][0] + 1)
+			}
+		}
+	}
+	if len(rs) == 0 && len(bs) == 0 {
+		return "-"
+	}
+	var rt, bt []string
+	for _, x := range rs {
+		rt = append(rt, fmt.Sprintf("%d:%d", x[0], x[1]))
+	}
+	for _, x := range bs {
+		bt = append(bt, fmt.Sprintf("%d:%d:%d", x[0], x[1], x[2]))
+	}
+	j := func(l []string) string {
+		if len(l) == 0 {
+			return "-"
+		}
+		return strings.Join(l, ",")
+	}
+	return j(rt) + "/" + j(bt)
+}
+
+// msg emits a runtime message of one of the runtime accounts.
+func (g *gen) msg() bool {
+	r := g.r
+	rt := theCast.runtimes[r.Intn(len(theCast.runtimes))]
+	general, _, accts := g.bal()
+	switch r.Intn(8) {
+	case 0, 1, 2:
+		dst := g.anyAcct()
+		if r.Chance(1, 12) {
+			dst = rt
+		}
+		return g.emit(fmt.Sprintf("msg %d transfer %d %s", rt, dst, g.amount(general[rt])))
+	case 3, 4:
+		e := g.entity()
+		if r.Chance(1, 6) {
+			e = g.anyAcct()
+		}
+		return g.emit(fmt.Sprintf("msg %d escrow %d %s", rt, e, g.amount(general[rt])))
+	case 5, 6:
+		e := g.anyAcct()
+		shares := big.NewInt(int64(r.Intn(20)))
+		ctx := g.w.appState.NewContext(abciAPI.ContextEndBlock)
+		st := stakingState.NewMutableState(ctx.State())
+		if ds, err := st.DelegationsFor(ctx, theCast.addrs[rt]); err == nil && len(ds) > 0 && r.Chance(5, 6) {
+			var es []int
+			for a := range ds {
+				es = append(es, theCast.index[a])
+			}
+			sort.Ints(es)
+			e = es[r.Intn(len(es))]
+			shares = g.amount(ds[theCast.addrs[e]].Shares.ToBigInt())
+		}
+		ctx.Close()
+		return g.emit(fmt.Sprintf("msg %d reclaim %d %s", rt, e, shares))
+	default:
+		src := g.anyAcct()
+		amt := g.amount(general[src])
+		for i, a := range accts {
+			if al, ok := a.General.Allowances[theCast.addrs[rt]]; ok && r.Chance(3, 4) {
+				src, amt = i, g.amount(al.ToBigInt())
+			}
+		}
+		return g.emit(fmt.Sprintf("msg %d withdraw %d %s", rt, src, amt))
+	}
+}
+
 func list(l []int) string {
 	if len(l) == 0 {
 		return "-"
@@ -1185,12 +1885,294 @@ func list(l []int) string {
 	return strings.Join(s, ",")
 }
 
+// begin emits BeginBlock of block number b with a random proposer, vote participation and evidence.
+func (g *gen) begin(b int) bool {
+	r := g.r
+	// proposer, votes, evidence
+	prop := "-"
+	if r.Chance(5, 6) {
+		prop = strconv.Itoa(r.Intn(nValidators))
+	}
+	nEl := 1 + r.Intn(nValidators)
+	if (spec != "c10" && r.Chance(1, 250)) || (spec == "c10" && b == 0 && r.Chance(1, 2)) {
+		nEl = 0
+	}
+	if nEl == 0 && spec == "c10" {
+		// documented precondition: the vote list is non-empty whenever last block fees are non-zero
+		if d := strings.Fields(g.w.dump()); len(d) > 4 && d[4] != "0" {
+			nEl = 1 + r.Intn(nValidators)
+		}
+	}
+	var voters []int
+	perm := []int{0, 1, 2, 3, 4}
+	for i := range perm {
+		j := i + r.Intn(len(perm)-i)
+		perm[i], perm[j] = perm[j], perm[i]
+	}
+	for i := 0; i < nEl && r.Chance(4, 5); i++ {
+		voters = append(voters, perm[i])
+	}
+	var ev []int
+	if r.Chance(1, 6) {
+		ev = append(ev, r.Intn(nValidators))
+		if r.Chance(1, 3) {
+			ev = append(ev, r.Intn(nValidators))
+		}
+		if r.Chance(1, 4) {
+			ev = append(ev, nValidators+r.Intn(5)) // evidence against an unknown validator
+		}
+	}
+	// the driver encodes voters as validator numbers; the model wants entity account numbers
+	return g.emit(fmt.Sprintf("begin %s %d %s %s", prop, nEl, list(voters), list(ev)))
+}
+
+// ---- wind-down histories
+//
+// Several delegators AND the escrow account itself delegate to the same escrow account and reclaim
+// (all, half, a part, one share; once or several times, in one epoch or across epochs) so that many
+// debonding delegations to the same escrow account end at the same epoch.  The escrow account is
+// chosen so that its address sorts before / between / after the addresses of its delegators (the
+// expired queue is walked by end epoch, delegator address, escrow address); one to three escrow
+// accounts with overlapping delegator sets are wound down together; rewards and slashing change the
+// active and the debonding pool's price between the reclaim and its completion; epochs advance by
+// one or more so that end epochs are met exactly or late.  Ordinary random transactions are mixed in.
+
+type wpair struct{ d, e int }
+
+// txAs emits a transaction of signer s with its current nonce and a small fee.
+func (g *gen) txAs(s int, body string) bool {
+	_, nonce, _ := g.bal()
+	fee := 0
+	if g.r.Chance(1, 3) {
+		fee = g.r.Intn(20)
+	}
+	g.gasTok, g.gasPick = "", -1
+	return g.emit(fmt.Sprintf("tx %d %d %d %s", s, nonce[s], fee, body))
+}
+
+func (g *gen) delegationShares(d, e int) *big.Int {
+	ctx := g.w.appState.NewContext(abciAPI.ContextEndBlock)
+	defer ctx.Close()
+	st := stakingState.NewMutableState(ctx.State())
+	del, err := st.Delegation(ctx, theCast.addrs[d], theCast.addrs[e])
+	if err != nil {
+		panic(err)
+	}
+	return del.Shares.ToBigInt()
+}
+
+func (g *gen) queueLen() int {
+	q, _, _ := parseDump(g.w.dump())
+	return len(q)
+}
+
+func (g *gen) shufflePairs(ps []wpair) []wpair {
+	out := append([]wpair{}, ps...)
+	for i := range out {
+		j := i + g.r.Intn(len(out)-i)
+		out[i], out[j] = out[j], out[i]
+	}
+	return out
+}
+
+// noise: a few ordinary operations inside a block.
+func (g *gen) noise(escrows []int, max int) bool {
+	r := g.r
+	for k := r.Intn(max + 1); k > 0; k-- {
+		switch r.Intn(8) {
+		case 0:
+			e := escrows[r.Intn(len(escrows))]
+			if g.emit(fmt.Sprintf("slash %d %s", e, g.amount(big.NewInt(int64(r.Intn(50000)))))) {
+				return true
+			}
+		case 1:
+			e := escrows[r.Intn(len(escrows))]
+			if g.emit(fmt.Sprintf("tfc %d %s 1", e, g.amount(big.NewInt(int64(r.Intn(50000)))))) {
+				return true
+			}
+		case 2:
+			if g.emit(fmt.Sprintf("addrewards %d %d %s", g.curEpoch, []int{1, 1000, 100000000}[r.Intn(3)], list(escrows))) {
+				return true
+			}
+		case 3:
+			if g.msg() {
+				return true
+			}
+		default:
+			if g.tx() {
+				return true
+			}
+		}
+	}
+	return false
+}
+
+func (g *gen) windDown(debint int) []string {
+	r, ents := g.r, theCast.entities
+	// the cast: escrow accounts and who delegates to them
+	var pairs []wpair
+	var escrows []int
+	have := map[wpair]bool{}
+	add := func(p wpair) {
+		if !have[p] {
+			have[p] = true
+			pairs = append(pairs, p)
+		}
+	}
+	for k := 1 + r.Intn(3); k > 0; k-- {
+		nd := 2 + r.Intn(3) // foreign delegators
+		perm := append([]int{}, ents...)
+		for i := range perm {
+			j := i + r.Intn(len(perm)-i)
+			perm[i], perm[j] = perm[j], perm[i]
+		}
+		set := append([]int{}, perm[:nd+1]...)
+		sort.Ints(set)
+		var e int
+		switch r.Intn(4) {
+		case 0:
+			e = set[0] // sorts before all its delegators
+		case 1:
+			e = set[nd] // after
+		default:
+			e = set[1+r.Intn(nd-1)] // between
+		}
+		escrows = append(escrows, e)
+		for _, d := range set {
+			if d != e {
+				add(wpair{d, e})
+			}
+		}
+		if r.Chance(4, 5) {
+			add(wpair{e, e})
+		}
+	}
+	block := func(newEpoch int, body func() bool) bool {
+		if newEpoch > 0 {
+			g.emit(fmt.Sprintf("epoch %d", newEpoch))
+		}
+		if g.begin(1) {
+			return true
+		}
+		if body() {
+			return true
+		}
+		return g.emit("end")
+	}
+	// 1. everybody escrows
+	if block(0, func() bool {
+		for _, p := range g.shufflePairs(pairs) {
+			general, _, _ := g.bal()
+			amt := new(big.Int).Div(general[p.d], big.NewInt(int64(4+r.Intn(6))))
+			if r.Chance(1, 6) {
+				amt = big.NewInt(int64(1 + r.Intn(50)))
+			}
+			if amt.Sign() == 0 {
+				amt = big.NewInt(1)
+			}
+			if g.txAs(p.d, fmt.Sprintf("escrow %d %s", p.e, amt)) {
+				return true
+			}
+		}
+		return g.noise(escrows, 2)
+	}) {
+		return g.ops
+	}
+	// 2. reclaim rounds (a block each); sometimes an epoch passes between two rounds, so that one
+	// pair gets several debonding delegations (different end epochs) — reclaims within one epoch merge
+	for round := 1 + r.Intn(3); round > 0; round-- {
+		ne := 0
+		if r.Chance(1, 3) {
+			ne = g.curEpoch + 1
+		}
+		last := round == 1
+		if block(ne, func() bool {
+			if g.noise(escrows, 2) {
+				return true
+			}
+			for _, p := range g.shufflePairs(pairs) {
+				if !last && r.Chance(1, 3) {
+					continue
+				}
+				sh := g.delegationShares(p.d, p.e)
+				if sh.Sign() == 0 {
+					continue
+				}
+				want := new(big.Int).Set(sh)
+				if !last || r.Chance(1, 4) {
+					switch r.Intn(4) {
+					case 0:
+						want.SetInt64(1)
+					case 1:
+						want.Rsh(sh, 1)
+					case 2:
+						want = g.amount(sh)
+					}
+					if want.Sign() == 0 {
+						want.SetInt64(1)
+					}
+				}
+				if g.txAs(p.d, fmt.Sprintf("reclaim %d %s", p.e, want)) {
+					return true
+				}
+				if r.Chance(1, 8) {
+					// a second reclaim of the same pair in the same block (merged into one debonding delegation)
+					if sh2 := g.delegationShares(p.d, p.e); sh2.Sign() > 0 && g.txAs(p.d, fmt.Sprintf("reclaim %d %s", p.e, g.amount(sh2))) {
+						return true
+					}
+				}
+			}
+			return false
+		}) {
+			return g.ops
+		}
+	}
+	// 3. completion: epochs advance until the queue is empty
+	for b := 0; b < 4+2*debint && (g.queueLen() > 0 || b < 2); b++ {
+		ne := 0
+		if r.Chance(3, 4) {
+			ne = g.curEpoch + 1
+			if r.Chance(1, 5) {
+				ne += 1 + r.Intn(debint)
+			}
+		}
+		if block(ne, func() bool { return g.noise(escrows, 3) }) {
+			return g.ops
+		}
+	}
+	return g.ops
+}
+
+// windPercent: share of the generated histories (spec c05) that are wind-down histories (see windDown).
+var windPercent = 40
+
 func genCase(r *hlib.Rng, nblocks int, res *hlib.Result) []string {
-	g := &gen{r: r, w: newWorld(), res: res}
-	c := theCast
+	g := &gen{r: r, w: newWorld(), res: res, patterns: map[string]bool{}}
+	ops := g.run(nblocks)
+	// per history: which ordering patterns its debonding completions exhibited
+	for k := range g.patterns {
+		res.Count("history:debond:" + k)
+	}
+	return ops
+}
+
+func (g *gen) run(nblocks int) []string {
+	theCast = fullCast
+	r, c := g.r, theCast
+	wind := spec == "c05" && r.Intn(100) < windPercent
+	if wind {
+		g.res.Count("case:wind-down")
+	} else {
+		g.res.Count("case:mixed")
+	}
 	// parameters
 	pick := func(vals ...int64) int64 { return vals[r.Intn(len(vals))] }
 	g.mtb = pick(0, 0, 10, 1000)
+	g.comHeavy = !wind && r.Chance(1, 3)
+	if g.comHeavy {
+		g.res.Count("case:commission-schedule-heavy")
+		g.mtb = pick(0, 0, 10)
+	}
 	epoch := int(pick(0, 1, 5))
 	sched := "-"
 	if r.Chance(3, 4) {
@@ -1205,14 +2187,45 @@ func genCase(r *hlib.Rng, nblocks int, res *hlib.Result) []string {
 	if thrD > 0 {
 		thrN = int64(r.Intn(int(thrD) + 1))
 	}
+	mda, debint, disD := pick(0, 0, 1, 100), pick(0, 1, 1, 2, 3), pick(0, 0, 0, 0, 0, 0, 0, 1)
+	if wind {
+		// delegation enabled, debonding period 1..4
+		mda, debint, disD = pick(0, 0, 1), pick(1, 1, 2, 2, 3, 4), 0
+		if g.mtb > 10 {
+			g.mtb = 10
+		}
+	}
 	params := fmt.Sprintf("mtb=%d mta=%d mda=%d debint=%d maxallow=%d disT=%d disD=%d wP=%d wV=%d wN=%d sched=%s rfS=%d rfP=%d thrN=%d thrD=%d mincom=%d slash=%d freeze=%d",
-		g.mtb, pick(0, 0, 1, 50), pick(0, 0, 1, 100), pick(0, 1, 1, 2, 3), pick(0, 1, 2, 8, 8), pick(0, 0, 0, 0, 0, 0, 0, 1), pick(0, 0, 0, 0, 0, 0, 0, 1),
+		g.mtb, pick(0, 0, 1, 50), mda, debint, pick(0, 1, 2, 8, 8), pick(0, 0, 0, 0, 0, 0, 0, 1), disD,
 		pick(0, 1, 2, 7), pick(0, 1, 1, 3), pick(0, 1, 1, 5), sched, pick(0, 1, 1000, 100000000), pick(0, 1, 1000, 100000000),
 		thrN, thrD, mincom, pick(0, 1, 1000, 1000000000000), pick(0, 0, 1))
 	if spec != "c05" || r.Chance(1, 3) {
-		params += " gascost=100 gasbyte=1"
-		g.gascost = 100
+		// per-operation costs: transfer, burn, add escrow, reclaim escrow, amend commission schedule, allow, withdraw
+		costs := []int{10, 25, 100, 150, 60, 30, 40}
+		if r.Chance(1, 4) {
+			for i := range costs {
+				costs[i] = r.Intn(300)
+			}
+		}
+		params += fmt.Sprintf(" gascosts=%s gasbyte=1", list(costs))
+		g.gasOn = true
+		g.gasCost = map[string]int{"transfer": costs[0], "burn": costs[1], "escrow": costs[2], "reclaim": costs[3],
+			"amend": costs[4], "allow": costs[5], "withdraw": costs[6]}
 	}
+	g.mincom = int(mincom)
+	g.rci, g.rbl, g.mrs, g.mbs = int(pick(1, 1, 1, 2, 5)), int(pick(0, 1, 1, 3)), int(pick(1, 2, 4, 4)), int(pick(1, 2, 4))
+	g.msgHeavy = r.Chance(1, 4)
+	escmsg := pick(0, 1, 1)
+	if g.msgHeavy {
+		escmsg = pick(1, 1, 1, 0)
+		g.res.Count("case:runtime-message-heavy")
+	}
+	comthr := pick(0, 0, 0, 100, 100000)
+	if g.comHeavy {
+		comthr = pick(0, 0, 0, 1)
+	}
+	params += fmt.Sprintf(" rci=%d rbl=%d mrs=%d mbs=%d comthr=%d escmsg=%d", g.rci, g.rbl, g.mrs, g.mbs,
+		comthr, escmsg)
 	if strings.Contains(params, "wP=0 wV=0 wN=0") {
 		params = strings.Replace(params, "wP=0", "wP=1", 1)
 	}
@@ -1237,16 +2250,26 @@ func genCase(r *hlib.Rng, nblocks int, res *hlib.Result) []string {
 	var lines []string
 	for _, i := range c.entities {
 		a := &acc{g: scale(), aB: big.NewInt(0), aTS: big.NewInt(0), dB: big.NewInt(0), dTS: big.NewInt(0), com: "-"}
-		if r.Chance(1, 2) {
-			a.com = strconv.Itoa(int(mincom) + r.Intn(100001-int(mincom)))
-			if r.Chance(1, 4) {
-				a.com = []string{strconv.Itoa(int(mincom)), "100000"}[r.Intn(2)]
-			}
+		if wind || g.comHeavy {
+			a.g.Add(a.g, big.NewInt(int64(10000+r.Intn(1000000))))
 		}
-		if a.com == "100000" || (a.com == "-" && mincom == 100000) {
+		full := mincom == 100000
+		if r.Chance(1, 2) || (g.comHeavy && r.Chance(1, 2)) {
+			a.com, full = g.genSchedule(epoch)
+		}
+		if full {
 			g.fullCom = append(g.fullCom, i)
 		}
 		accs[i] = a
+	}
+	// runtime accounts (callers of runtime messages): a general balance only
+	for _, i := range c.runtimes {
+		accs[i] = &acc{g: scale(), aB: big.NewInt(0), aTS: big.NewInt(0), dB: big.NewInt(0), dTS: big.NewInt(0), com: "-"}
+		if r.Chance(2, 3) {
+			accs[i].g.Add(accs[i].g, big.NewInt(int64(1000+r.Intn(100000))))
+		}
+		total.Add(total, accs[i].g)
+		lines = append(lines, fmt.Sprintf("acct %d %s 0 0 0 0 0 - -", i, accs[i].g))
 	}
 	// active delegations
 	for k := 0; k < r.Intn(7); k++ {
@@ -1330,48 +2353,17 @@ func genCase(r *hlib.Rng, nblocks int, res *hlib.Result) []string {
 	if g.emit("init") {
 		return g.ops
 	}
+	g.curEpoch = epoch
+	if wind && !bad {
+		return g.windDown(int(debint))
+	}
 	// blocks
 	for b := 0; b < nblocks; b++ {
-		if r.Chance(1, 3) {
+		if r.Chance(1, 3) || (g.comHeavy && r.Chance(1, 2)) {
 			epoch += 1 + r.Intn(2)
 			g.emit(fmt.Sprintf("epoch %d", epoch))
 		}
-		// proposer, votes, evidence
-		prop := "-"
-		if r.Chance(5, 6) {
-			prop = strconv.Itoa(r.Intn(nValidators))
-		}
-		nEl := 1 + r.Intn(nValidators)
-		if (spec != "c10" && r.Chance(1, 250)) || (spec == "c10" && b == 0 && r.Chance(1, 2)) {
-			nEl = 0
-		}
-		if nEl == 0 && spec == "c10" {
-			// documented precondition: the vote list is non-empty whenever last block fees are non-zero
-			if d := strings.Fields(g.w.dump()); len(d) > 4 && d[4] != "0" {
-				nEl = 1 + r.Intn(nValidators)
-			}
-		}
-		var voters []int
-		perm := []int{0, 1, 2, 3, 4}
-		for i := range perm {
-			j := i + r.Intn(len(perm)-i)
-			perm[i], perm[j] = perm[j], perm[i]
-		}
-		for i := 0; i < nEl && r.Chance(4, 5); i++ {
-			voters = append(voters, perm[i])
-		}
-		var ev []int
-		if r.Chance(1, 6) {
-			ev = append(ev, r.Intn(nValidators))
-			if r.Chance(1, 3) {
-				ev = append(ev, r.Intn(nValidators))
-			}
-			if r.Chance(1, 4) {
-				ev = append(ev, nValidators+r.Intn(5)) // evidence against an unknown validator
-			}
-		}
-		// the driver encodes voters as validator numbers; the model wants entity account numbers
-		if g.emit(fmt.Sprintf("begin %s %d %s %s", prop, nEl, list(voters), list(ev))) {
+		if g.begin(b) {
 			return g.ops
 		}
 		if spec == "c10" && len(g.fullCom) > 0 && r.Chance(1, 25) {
@@ -1383,10 +2375,35 @@ func genCase(r *hlib.Rng, nblocks int, res *hlib.Result) []string {
 				return g.ops
 			}
 		}
-		for k := 0; k < r.Intn(7); k++ {
-			if r.Chance(1, 7) {
+		ntx := r.Intn(7)
+		if g.comHeavy {
+			ntx += r.Intn(5)
+		}
+		for k := 0; k < ntx; k++ {
+			if g.msgHeavy && r.Chance(1, 2) {
+				if g.msg() {
+					return g.ops
+				}
+				continue
+			}
+			if g.comHeavy && r.Chance(1, 5) {
+				// rewards, so that the rate in force at this epoch decides a commission
 				var stop bool
-				switch r.Intn(6) {
+				if r.Bool() {
+					stop = g.emit(fmt.Sprintf("addrewards %d %d %s", epoch, []int{1000, 100000000}[r.Intn(2)], list(theCast.entities)))
+				} else {
+					stop = g.emit(fmt.Sprintf("tfc %d %s 1", g.entity(), g.amount(big.NewInt(int64(r.Intn(100000))))))
+				}
+				if stop {
+					return g.ops
+				}
+				continue
+			}
+			if r.Chance(1, 6) {
+				var stop bool
+				switch r.Intn(9) {
+				case 6, 7, 8:
+					stop = g.msg()
 				case 0:
 					stop = g.emit(fmt.Sprintf("slash %d %s", g.entity(), g.amount(big.NewInt(int64(r.Intn(100000))))))
 				case 1:
@@ -1432,8 +2449,8 @@ func main() {
 	}
 
 	res := hlib.NewResult("ledgerdrv", *seed)
-	res.Rule = "generated block histories on the real staking application (mock application state): genesis with random parameters (min balances, fee-split weights, reward schedule and factors, signing threshold, commission rates incl. 0 and 100%, slashing with/without freeze, disabled transfers/delegation), 6 entities + common-pool and burn address as targets, 5 validators (one entity with two nodes); per block: optional epoch change, BeginBlock with proposer / vote participation / evidence, up to 6 transactions (transfer incl. self and to burn/reserved address, burn, add escrow incl. self-delegation, reclaim, allow, withdraw; valid and invalid nonces, zero/huge/boundary amounts, fees) or direct state movers (SlashEscrow, TransferFromCommon, AddRewards, governance deposit/refund/discard), EndBlock. A history is non-trivial when at least one value-moving operation succeeded; distinct by op list"
-	res.Explanation = "after every operation the full real ledger is dumped; the Lean model compares it account by account (DIVERGE) and evaluates the conservation invariant + supply rule on the real dump (SPEC); the repository's own sanity helpers are run at block boundaries as a second opinion (INTREE)"
+	res.Rule = "generated block histories on the real staking application (mock application state): genesis with random parameters (min balances, fee-split weights, reward schedule and factors, signing threshold, commission schedule rules (change interval, bound lead, step limits, minimum rate), multi-step commission schedules incl. already started steps and 0/100% rates, per-operation gas costs, slashing with/without freeze, disabled transfers/delegation, escrow messages allowed or not), 6 entities + 2 runtime accounts + common-pool and burn address as targets, 5 validators (one entity with two nodes); per block: optional epoch change, BeginBlock with proposer / vote participation / evidence, up to 6 (commission-heavy: 10) operations: transactions (transfer incl. self and to burn/reserved address, burn, add escrow incl. self-delegation, reclaim, allow, withdraw, amend commission schedule — acceptable amendments and amendments spoiled in exactly one respect; valid and invalid nonces, zero/huge/boundary amounts, fees, gas limits at every charge boundary), runtime messages (transfer, withdraw, add escrow, reclaim escrow from a runtime account), direct state movers (SlashEscrow, TransferFromCommon, AddRewards, governance deposit/refund/discard), EndBlock. 40% of the histories (spec c05) are wind-down histories: one to three escrow accounts, each with 2-4 delegators and (4/5) its own self-delegation, the escrow address chosen before / between / after its delegators' addresses, everybody escrows, then reclaims (all / half / part / one share; several rounds, within one epoch or across epochs) so that many debonding delegations of one escrow account end at the same epoch, with rewards and slashing in between, debonding period 1-4, epochs advancing by one or more until the queue is empty. A history is non-trivial when at least one value-moving operation succeeded; distinct by op list. counters history:debond:* give the number of histories whose completed batches showed each ordering pattern"
+	res.Explanation = "after every operation the full real ledger (incl. commission schedules) is dumped; the Lean model compares it account by account (DIVERGE) and evaluates the conservation invariant + supply rule on the real dump (SPEC); after every epoch transition the debond-exactly-once clause is evaluated on the real dump with the debonding-queue model of the C15 theorems (SPEC debond-exactly-once); the repository's own sanity helpers are run at block boundaries as a second opinion (INTREE)"
 
 	seenSig := map[string]bool{}
 	runOne := func(ops []string, caseSeed uint64, minimize bool) {
